@@ -8,6 +8,7 @@ mod bridge;
 mod ctx;
 mod gen;
 mod json;
+mod mutate;
 mod oracle;
 mod props;
 mod refstun;
